@@ -23,6 +23,7 @@ ITER_CONSUMERS = {
     UPD + "clean_old_unconfirmed": ("all", "stale unconfirmed coinbase candidates of every account are dropped (height-based, no value moves)"),
     SEL + "repopulate_tx": ("all", "looks records up by the context's own key ids (a key id embeds its account path)"),
     c.LW + "api_impl::owner::get_stored_tx": ("all", "look-up of a log entry by id to find its slate uuid; reads only"),
+    c.LW + "api_impl::owner::update_txs_via_kernel": ("account", "is a change output of this account still waiting for the entry (C04.R9; added with fix /repo owner.rs update_txs_via_kernel)"),
     c.LW + "internal::keys::accounts": ("n/a", ""),
 }
 ITER_FNS = (c.WB + "iter", c.WB + "tx_log_iter", c.WOB + "iter", c.WOB + "tx_log_iter")
@@ -539,4 +540,123 @@ def run(ctx):
             run.finding(Finding(R8, mw.id, "the update_all switch no longer selects between all non-spent outputs and the outstanding ones", site=mw.loc()))
         from .shared import was_unspent_flag
         was_unspent_flag(ctx, R8)
+    R9 = "C04.R9"
+    run.rule(R9, "which outstanding entries the refresh confirms through their kernel: all but those that are confirmed already, carry no kernel excess, or still have an unconfirmed output that refers to them (through which step 1 confirms them)", floor=4)
+    uk = ctx.fn(c.LW + "api_impl::owner::update_txs_via_kernel")
+    if uk is None:
+        run.error("C04.R9: update_txs_via_kernel not found")
+    else:
+        H = {b for b, t in uk.calls() if (t.get("f") or "").endswith("Iterator::next")}
+        K = {b for b, t in uk.calls() if (t.get("f") or "") == c.LW + "types::NodeClient::get_kernel"}
+        if len(H) != 1 or len(K) != 1:
+            run.error("C04.R9: loop head / get_kernel call not found in update_txs_via_kernel (%d/%d)" % (len(H), len(K)))
+        else:
+            n = len(uk.bbs)
+            can_k = {b for b in range(n) if not uk.bbs[b]["cleanup"] and (b in K or K & set(cfg.reach(uk, starts=(b,), cut_nodes=frozenset(H))))}
+            can_h = {b for b in range(n) if not uk.bbs[b]["cleanup"] and (H & set(cfg.reach(uk, starts=(b,), cut_nodes=frozenset(K))))}
+            body = set(cfg.reach(uk, starts=tuple(s_ for h in H for s_ in uk.succ(h)), cut_nodes=frozenset(H)))
+            skips = [(g_, s_) for g_ in sorted(body) if g_ in can_k and g_ not in K for s_ in uk.succ(g_) if s_ not in can_k and (s_ in can_h or s_ in H)]
+            fl = vf.get_flow(uk)
+
+            def fld(o):
+                return {x[2] for x in o if x[0] == "field" and x[1] == TLE}
+
+            # comparisons `amount_debited != 0` / `amount_credited != 0`
+            nz = {}
+            for x in cfg.comparisons(uk):
+                for side, other in ((x.l, x.r), (x.r, x.l)):
+                    if vf.const_of_operand(uk, other) != "0":
+                        continue
+                    pl = vf.op_place(side)
+                    names = set()
+                    for st in uk.bbs[x.b]["s"]:
+                        if st["k"] == "a" and pl and st["d"] == [pl[0], []] and st["r"]["k"] == "use":
+                            q = vf.op_place(st["r"]["o"])
+                            if q and q[1] and isinstance(q[1][-1], dict) and q[1][-1].get("a") == TLE:
+                                names.add(q[1][-1]["n"])
+                    op = x.op if side is x.l else cfg._SWAP[x.op]
+                    for nm in names & {"amount_debited", "amount_credited"}:
+                        if op in ("Ne", "Gt"):
+                            nz.setdefault(nm, set()).update(x.true_edges)
+                        elif op in ("Eq", "Le"):
+                            nz.setdefault(nm, set()).update(x.false_edges)
+            # "a change output still refers to this entry": the true edge of an any()/find() over the
+            # wallet's outputs whose closure reads OutputData.tx_log_entry and OutputData.status
+            refers = set()
+            for b, t in uk.calls():
+                fnm = t.get("f") or ""
+                if not (fnm.endswith("Iterator::any") or fnm.endswith("Iterator::find") or fnm.endswith("Iterator::position")):
+                    continue
+                ok_cl = False
+                for cid in closure_args(uk, t):
+                    g2 = db.fns.get(cid)
+                    reads = set()
+                    for bb in (g2.bbs if g2 else ()):
+                        for st in bb["s"]:
+                            if st["k"] == "a":
+                                for key in ("o", "p", "l", "r"):
+                                    o_ = st["r"].get(key)
+                                    pl = o_ if key == "p" else (vf.op_place(o_) if isinstance(o_, dict) else None)
+                                    for e in (pl[1] if pl else ()):
+                                        if isinstance(e, dict) and e.get("a") == OD:
+                                            reads.add(e["n"])
+                        tt = bb["t"]
+                        if tt["k"] == "call":
+                            for a_ in tt["a"]:
+                                for x_ in vf.producers(g2, a_):
+                                    if x_[0] == "field" and x_[1] == OD:
+                                        reads.add(x_[2])
+                    if {"tx_log_entry", "status"} <= reads and g2 is not None:
+                        # true only for an output that refers to the entry AND is still waiting to be seen on chain
+                        OST = c.LW + "types::OutputStatus"
+                        x_st = x_le = None
+                        for x in cfg.comparisons(g2):
+                            pl_, pr_ = vf.producers(g2, x.l), vf.producers(g2, x.r)
+                            for a_, b_ in ((pl_, pr_), (pr_, pl_)):
+                                if vf.has_field(a_, OD, "status") and any(y[0] == "agg" and y[1] == OST and y[2] in ("Unconfirmed", "Reverted") for y in b_) and x.op == "Eq":
+                                    x_st = x
+                                if vf.has_field(a_, OD, "tx_log_entry") and x.op == "Eq":
+                                    x_le = x
+                        if x_st is not None and x_le is not None and closure_true_requires(g2, x_st, db) and closure_true_requires(g2, x_le, db):
+                            ok_cl = True
+                if ok_cl:
+                    refers |= cfg.call_guard(uk, b).ok
+            classes = []
+            for g_, s_ in skips:
+                t = uk.bbs[g_]["t"]
+                cls = None
+                if t["k"] == "sw":
+                    ol = vf.op_place(t["o"])
+                    # what the switch operand was read from (statement in the same block)
+                    src = None
+                    for st in uk.bbs[g_]["s"]:
+                        if st["k"] == "a" and ol and st["d"] == [ol[0], []]:
+                            src = st["r"]
+                    if src and src["k"] == "use":
+                        q = vf.op_place(src["o"])
+                        if q and q[1] and isinstance(q[1][-1], dict) and q[1][-1].get("a") == TLE and q[1][-1]["n"] == "confirmed":
+                            zero = [tb for v, tb in t["t"] if v == "0"]
+                            cls = "confirmed" if s_ not in zero else "not-confirmed"
+                    if src and src["k"] == "disc":
+                        q = src["p"]
+                        if q[1] and isinstance(q[1][-1], dict) and q[1][-1].get("a") == TLE and q[1][-1]["n"] == "kernel_excess":
+                            some = [tb for v, tb in t["t"] if v == "1"]
+                            cls = "no-kernel-excess" if s_ not in some else "has-kernel-excess"
+                if cls is None:
+                    both = all(nm in nz and ((g_, s_) in nz[nm] or cfg.must_pass(uk, nz[nm], {g_})[0]) for nm in ("amount_debited", "amount_credited"))
+                    ref = bool(refers) and ((g_, s_) in refers or cfg.must_pass(uk, refers, {g_})[0])
+                    # a pending output that refers to the entry is what makes the skip safe (step 1 confirms the
+                    # entry through it); the debit-and-credit test on top of it is an optimisation
+                    cls = ("debit-and-credit" if both else "other") + ("+output-refers" if ref else "")
+                classes.append(((g_, s_), cls))
+            run.instance(R9, {"fn": "update_txs_via_kernel", "obligation": "the loop skips the kernel lookup on recognised edges only", "skip edges": [(cfg_e, cl) for cfg_e, cl in classes]}, held=bool(classes))
+            for (g_, s_), cl in classes:
+                held = cl in ("confirmed", "no-kernel-excess") or cl.endswith("+output-refers")
+                run.instance(R9, {"fn": "update_txs_via_kernel", "obligation": "skip edge asserts: %s" % cl, "site": c.site_of(uk, g_)}, held=held)
+                if held:
+                    continue
+                if cl == "debit-and-credit":
+                    run.finding(Finding(R9, uk.id, "an outstanding send with change is never looked up by kernel, also when no change output refers to it any more (change re-spent before it confirmed): it stays unconfirmed for good", site=c.site_of(uk, g_)))
+                else:
+                    run.finding(Finding(R9, uk.id, "outstanding entries are excluded from the kernel lookup by a condition other than confirmed / no kernel excess / (debit and credit, change output pending)", site=c.site_of(uk, g_), detail=cl))
     run.not_decided += ["equality with the node's UTXO set", "the ledger identity credits - debits = total + locked", "confirmation / maturity arithmetic"]
